@@ -253,13 +253,13 @@ func min(a, b int) int {
 
 // finding is an entry of known_findings.json.
 type finding struct {
-	Status    string `json:"status"` // "open" (recorded finding) or "fixed"
+	Status    string   `json:"status"` // "open" (recorded finding) or "fixed"
 	Property  string   `json:"property"`
 	Also      []string `json:"also,omitempty"` // other properties whose checks see the same deviation
 	Deviation string   `json:"deviation"`      // named deviation of the trace specification
-	What      string `json:"what"`
-	Witness   any    `json:"witness"`
-	Commit    string `json:"commit,omitempty"`
+	What      string   `json:"what"`
+	Witness   any      `json:"witness"`
+	Commit    string   `json:"commit,omitempty"`
 }
 
 func loadFindings(home string) []finding {
